@@ -193,6 +193,45 @@ pub fn dispatch(parts: &[&str]) -> String {
             let pp = reparsed.as_ref() == Some(&v);
             format!("ok typed={} bits={} reconstruct={} printparse={} printed={}", well_typed, bits, round, pp, printed)
         }
+        "params" => {
+            // parameters() of a template: sorted NAME:TYPE list
+            match simfony::TemplateProgram::new(unhex(parts[1])) {
+                Ok(t) => {
+                    let mut v: Vec<String> = t.parameters().iter().map(|(n, ty)| format!("{}:{}", n, ty)).collect();
+                    v.sort();
+                    format!("ok {}", v.join(";"))
+                }
+                Err(e) => format!("compile-err {}", e.replace('\n', " ")),
+            }
+        }
+        "run_env" => {
+            // like run, but satisfy_with_env(Some(env)) (pruning path)
+            let src = unhex(parts[1]);
+            let arguments = if parts[2].is_empty() { Arguments::default() } else {
+                match Arguments::parse_from_str(&unhex(parts[2])) { Ok(x) => x, Err(e) => return format!("args-err {}", e.to_string().replace('\n', " ")) } };
+            let witness = if parts[3].is_empty() { WitnessValues::default() } else {
+                match WitnessValues::parse_from_str(&unhex(parts[3])) { Ok(x) => x, Err(e) => return format!("witness-err {}", e.to_string().replace('\n', " ")) } };
+            let compiled = match CompiledProgram::new(src, arguments, false) { Ok(x) => x, Err(e) => return format!("compile-err {}", e.replace('\n', " ")) };
+            let env = simfony::dummy_env::dummy();
+            let satisfied = match compiled.satisfy_with_env(witness, Some(&env)) { Ok(x) => x, Err(e) => return format!("satisfy-err {}", e.replace('\n', " ")) };
+            let mut mac = match simfony::simplicity::BitMachine::for_program(satisfied.redeem()) {
+                Ok(m) => m,
+                Err(e) => return format!("exec-fail limits {}", e.to_string().replace('\n', " ")),
+            };
+            match mac.exec(satisfied.redeem(), &env) {
+                Ok(_) => "ok".to_string(),
+                Err(e) => format!("exec-fail {}", e.to_string().replace('\n', " ")),
+            }
+        }
+        "parse_type" => {
+            match simfony::ResolvedType::parse_from_str(&unhex(parts[1])) { Ok(t) => format!("ok {}", t), Err(e) => format!("err {}", super::hex(e.to_string().as_bytes())) }
+        }
+        "parse_witness" => {
+            match WitnessValues::parse_from_str(&unhex(parts[1])) { Ok(w) => format!("ok {}", super::hex(w.to_string().as_bytes())), Err(e) => format!("err {}", super::hex(e.to_string().as_bytes())) }
+        }
+        "parse_args" => {
+            match Arguments::parse_from_str(&unhex(parts[1])) { Ok(w) => format!("ok {}", super::hex(w.to_string().as_bytes())), Err(e) => format!("err {}", super::hex(e.to_string().as_bytes())) }
+        }
         "render_err" => {
             // rendered compile error of a source text (hex), or "ok" when it compiles
             match simfony::TemplateProgram::new(unhex(parts[1])) {
